@@ -129,6 +129,12 @@ def _region(frame):
                     return 'callbacks'
                 if q == 'TriggerContext.__exit__':
                     return 'results'
+                if q in ('TriggerHandler.__actions_for_location', 'Trigger.at_location'):
+                    # matching one trigger: which tracepoints does it carry (read without calling agent code)
+                    trig = f.f_locals.get('trigger' if q.startswith('TriggerHandler') else 'self')
+                    acts = getattr(trig, '_Trigger__actions', None) or []
+                    ids = sorted({str(getattr(a, '_LocationAction__id', '?')) for a in acts})
+                    return 'match:' + ','.join(ids)
                 if (rf, q) == ENTRY:
                     return 'other'
                 slf = f.f_locals.get('self') if 'self' in f.f_code.co_varnames else None
